@@ -197,6 +197,14 @@ func (s *sim) validBytes(id int) []byte {
 		if s.rng.Intn(2) == 0 {
 			p.UpdateOption(dhcpv4.OptGeneric(dhcpv4.GenericOptionCode(200), make([]byte, 300+s.rng.Intn(300))))
 		}
+		if s.rng.Intn(2) == 0 { // what relayed client traffic carries
+			p.UpdateOption(dhcpv4.OptRelayAgentInfo(dhcpv4.OptGeneric(dhcpv4.GenericOptionCode(1), []byte{'c', byte(id), byte(s.rng.Intn(256))}),
+				dhcpv4.OptGeneric(dhcpv4.GenericOptionCode(2), []byte{'r', byte(id >> 8)})))
+			p.UpdateOption(dhcpv4.OptClientIdentifier([]byte{1, 2, 0, 0, 0, byte(id >> 8), byte(id)}))
+			p.UpdateOption(dhcpv4.OptHostName("host" + string(rune('a'+id%26))))
+			p.UpdateOption(dhcpv4.OptParameterRequestList(dhcpv4.OptionRouter, dhcpv4.OptionSubnetMask, dhcpv4.OptionDomainNameServer))
+			p.GatewayIPAddr = net.IPv4(10, 1, byte(id>>8), byte(id)).To4()
+		}
 		return p.ToBytes()
 	}
 	m, _ := dhcpv6.NewMessage()
@@ -204,13 +212,42 @@ func (s *sim) validBytes(id int) []byte {
 	m.TransactionID = dhcpv6.TransactionID{byte(id >> 8), byte(id), 7}
 	m.AddOption(&dhcpv6.OptionGeneric{OptionCode: 65001, OptionData: []byte{byte(id >> 8), byte(id)}})
 	m.AddOption(dhcpv6.OptElapsedTime(time.Duration(id) * 10 * time.Millisecond))
+	if s.rng.Intn(2) == 0 { // what a client's message carries
+		m.AddOption(dhcpv6.OptClientID(&dhcpv6.DUIDLLT{HWType: 1, Time: uint32(id), LinkLayerAddr: net.HardwareAddr{2, 0, 0, 0, byte(id >> 8), byte(id)}}))
+		ia := &dhcpv6.OptIANA{T1: time.Hour, T2: 2 * time.Hour}
+		ia.IaId = [4]byte{byte(id), 2, 3, 4}
+		ia.Options.Options = dhcpv6.Options{&dhcpv6.OptIAAddress{IPv6Addr: net.ParseIP("2001:db8::77"), PreferredLifetime: time.Hour, ValidLifetime: 2 * time.Hour}}
+		m.AddOption(ia)
+		m.AddOption(dhcpv6.OptRequestedOption(dhcpv6.OptionDNSRecursiveNameServer, dhcpv6.OptionDomainSearchList))
+		m.AddOption(&dhcpv6.OptVendorClass{EnterpriseNumber: 9, Data: [][]byte{[]byte("class"), {byte(id)}}})
+		m.AddOption(&dhcpv6.OptUserClass{UserClasses: [][]byte{[]byte("uc"), {byte(id >> 8), byte(id)}}})
+	}
 	var d dhcpv6.DHCPv6 = m
 	for depth := s.rng.Intn(4); depth > 0; depth-- {
 		r, err := dhcpv6.EncapsulateRelay(d, dhcpv6.MessageTypeRelayForward, net.ParseIP("2001:db8::1"), net.ParseIP("fe80::2"))
 		if err != nil {
 			panic(err)
 		}
+		// what relay agents add at their level
+		if s.rng.Intn(2) == 0 {
+			r.AddOption(dhcpv6.OptInterfaceID([]byte{'i', 'f', byte(id), byte(depth), byte(s.rng.Intn(256))}))
+		}
+		if s.rng.Intn(2) == 0 {
+			r.AddOption(&dhcpv6.OptRemoteID{EnterpriseNumber: 4242, RemoteID: []byte{byte(id >> 8), byte(id), byte(depth)}})
+		}
+		if s.rng.Intn(3) == 0 {
+			r.AddOption(dhcpv6.OptClientLinkLayerAddress(1, net.HardwareAddr{2, 0, 0, byte(depth), byte(id >> 8), byte(id)}))
+		}
 		d = r
+	}
+	if s.rng.Intn(6) == 0 {
+		// a relay message that carries no relayed message: decodable, hence the handler's business
+		r := &dhcpv6.RelayMessage{MessageType: dhcpv6.MessageTypeRelayForward, HopCount: uint8(id), LinkAddr: net.ParseIP("2001:db8::1"), PeerAddr: net.ParseIP("fe80::2")}
+		r.AddOption(dhcpv6.OptInterfaceID([]byte{'x', byte(id >> 8), byte(id)}))
+		d = r
+		for depth := s.rng.Intn(3); depth > 0; depth-- {
+			d, _ = dhcpv6.EncapsulateRelay(d, dhcpv6.MessageTypeRelayForward, net.ParseIP("2001:db8::3"), net.ParseIP("fe80::4"))
+		}
 	}
 	return d.ToBytes()
 }
